@@ -597,6 +597,10 @@ def e2e_wsrun(case: dict) -> dict:
         # is read and handled; then the peer reads again
         app += [["recv"], ["send", dec_msgs(["close", cl[1]])[0]], ["recv_until_disconnect"]]
         client = [["stall"], ["msg", "text", ["go"]], ["flush"], ["sleep", 0.1], ["close", cl[2]], ["flush"], ["sleep", 0.1], ["unstall"], ["sleep", 0.1], ["eof"]]
+        if case.get("h2_window"):
+            # HTTP/2 flow control instead of the transport: the stream's window (`h2_window` bytes) is smaller than the close
+            # frame, its end cannot be sent, the application waits in StreamBuffer.drain() - and the client never opens the window
+            client = [a for a in client if a[0] not in ("stall", "unstall")]
     elif cl[0] == "app_close_lost":
         app += [["recv"], ["send", dec_msgs(["close", cl[1]])[0]], ["recv_until_disconnect"]]
         client = [["stall"], ["msg", "text", ["go"]], ["flush"], ["sleep", 0.1], ["reset"]]
@@ -607,7 +611,7 @@ def e2e_wsrun(case: dict) -> dict:
         app.append(["recv_until_disconnect"])
         client = [["sleep", 0.1], ["eof"]]
     return {"worker": case["worker"], "carrier": carrier, "deflate": False, "mask_seed": case.get("mask_seed", 5), "cfg": dict(case.get("cfg") or {}),
-            "before": case.get("before", 0),
+            "before": case.get("before", 0), **({"h2_window": case["h2_window"], "h2_auto_window": "connection"} if case.get("h2_window") else {}),
             "headers": headers, "method": case["method"], "version": case["version"], "protocol": case.get("protocol", "websocket"),
             "app": app, "client": client, "seg": ["one"], "subprotocols": [], "tail": 30}
 
@@ -706,11 +710,12 @@ def run_e2e(ctx: Ctx, cases: List[dict]) -> None:
         # ---- closing orders after a plain accept ----
         want = expected_code(case["closing"])
         discs = [r[1] for r in app["recv"] if r[0] == "websocket.disconnect"]
+        held = {"write_held_by": "h2_flow_control" if case.get("h2_window") else "transport"} if case["closing"][0] in ("app_close_overlap", "app_close_lost") else {}
         if want is not None:
             if len(discs) != 1:
-                ctx.violation("disconnect_exactly_once", case, app["recv"], {**sig0, "order": case["closing"][0]})
+                ctx.violation("disconnect_exactly_once", case, app["recv"], {**sig0, "order": case["closing"][0], **held})
             elif discs[0] not in want:
-                ctx.violation("disconnect_code", case, {"got": discs[0], "want": want}, {**sig0, "order": case["closing"][0]})
+                ctx.violation("disconnect_code", case, {"got": discs[0], "want": want}, {**sig0, "order": case["closing"][0], **held})
         if case["closing"][0] == "client_first":
             wantc = case["closing"][1] if case["closing"][1] is not None else 1005
             if o["client"]["close_code"] != wantc:
@@ -924,6 +929,11 @@ def run(ctx: Ctx) -> None:
                 if cl[0] in ("app_close_overlap", "app_close_lost") and cl[-1] != 0:
                     continue        # (which of the branch's sends is suspended is the transport's business end to end)
                 ecases.append({"layer": "e2e", **h, "worker": worker, "decisions": [["accept", None, []]], "closing": cl})
+                if cl[0] == "app_close_overlap" and h["carrier"] == "h2":
+                    # the same overlap with HTTP/2 flow control holding the close frame back (a 2-byte stream window that the
+                    # client never opens) instead of the transport
+                    ecases.append({"layer": "e2e", **h, "hclass": h["hclass"] + ":flow_control", "worker": worker, "decisions": [["accept", None, []]],
+                                   "closing": cl, "h2_window": 2})
     # the upgrade as the k-th request of its connection, below / at the per-connection request maximum (the server's own
     # `connection: close` belongs on final responses; the 101 of an accept stays the faithful rendering of the accept)
     for h in valid:
